@@ -404,21 +404,27 @@ def RequestLineOk (r : ReqHead) : Prop :=
 
 /-- forward_request_roundtrip / edit_stable: for every request the proxy would forward (validate_headers true — whether the
     fields come from the wire or from an addon edit) and every consistent body, the reference reader reads the written
-    bytes back as exactly this request, followed by whatever comes next -/
+    bytes back as exactly this request, followed by whatever comes next.
+    Reading of "including any addon edits" (audit round 6): the theorem covers an edited message exactly when the EDITED head
+    still passes `validateHeaders` and `BodyConsistent` still holds.  The code checks validate_headers before the hooks only
+    (HttpStream.check_invalid) and does not re-check before Http1Client.send, so for edits that write Content-Length /
+    Transfer-Encoding / a non-token name the hypothesis can fail and nothing is claimed — finding F-C01a in known/C01.json. -/
 def ForwardRequestRoundtrip : Prop :=
   ∀ (r : ReqHead) (body rest : Bytes),
     validateHeaders .request r.version [] r.fields = true → RequestLineOk r → BodyConsistent r body →
     ∃ fr, Ref.parseRequest (forwardRequest r body ++ rest) =
       .ok (⟨r.method, requestTarget r, r.version, r.fields.map (fun f => (f.1, Ref.unfold f.2)), body, fr⟩, rest)
 
-/-- forward_stream_roundtrip: the pipelined version (induction over the list of messages) -/
+/-- forward_stream_roundtrip: the pipelined version (induction over the list of messages): same number and order, and for every
+    message the same method, target, version, header fields (obs-folds read as SP, as the reference reader does) and body.
+    (Strengthened in audit round 6: the conclusion used to compare method, target and body only.) -/
 def ForwardStreamRoundtrip : Prop :=
   ∀ (ms : List (ReqHead × Bytes)),
     (∀ m ∈ ms, validateHeaders .request m.1.version [] m.1.fields = true ∧ RequestLineOk m.1 ∧ BodyConsistent m.1 m.2) →
     let wire := (ms.map fun m => forwardRequest m.1 m.2).flatten
     (Ref.parseRequests (wire.length + 1) wire).2 = none ∧
-    (Ref.parseRequests (wire.length + 1) wire).1.map (fun m => (m.a, m.b, m.body)) =
-      ms.map (fun m => (m.1.method, requestTarget m.1, m.2))
+    (Ref.parseRequests (wire.length + 1) wire).1.map (fun m => (m.a, m.b, m.c, m.fields, m.body)) =
+      ms.map (fun m => (m.1.method, requestTarget m.1, m.1.version, m.1.fields.map (fun f => (f.1, Ref.unfold f.2)), m.2))
 
 private theorem noPyWs_facts {b : Bytes} (hne : b ≠ []) (h : ∀ c ∈ b, isPyWs c = false) :
     (32 : UInt8) ∉ b ∧ (13 : UInt8) ∉ b ∧ (10 : UInt8) ∉ b ∧ Ref.noWs b = true := by
@@ -1919,8 +1925,8 @@ theorem forward_stream_roundtrip : ForwardStreamRoundtrip := by
       (∀ m ∈ ms, validateHeaders .request m.1.version [] m.1.fields = true ∧ RequestLineOk m.1 ∧ BodyConsistent m.1 m.2) →
       ms.length < f →
       (Ref.parseRequests f (ms.map fun m => forwardRequest m.1 m.2).flatten).2 = none ∧
-      (Ref.parseRequests f (ms.map fun m => forwardRequest m.1 m.2).flatten).1.map (fun m => (m.a, m.b, m.body)) =
-        ms.map (fun m => (m.1.method, requestTarget m.1, m.2)) by
+      (Ref.parseRequests f (ms.map fun m => forwardRequest m.1 m.2).flatten).1.map (fun m => (m.a, m.b, m.c, m.fields, m.body)) =
+        ms.map (fun m => (m.1.method, requestTarget m.1, m.1.version, m.1.fields.map (fun f => (f.1, Ref.unfold f.2)), m.2)) by
     apply H ms _ h
     have : ∀ (l : List (ReqHead × Bytes)), l.length ≤ ((l.map fun m => forwardRequest m.1 m.2).flatten).length := by
       intro l
